@@ -24,6 +24,18 @@ PROPERTIES['C14'] = {
          claim='Collider(leafBB, leafMorton) followed by Collisions(one Box query): the recorder is called exactly once for leaf i iff the closed-interval overlap test (independent oracle in the harness) holds, never for another index; root box contains every leaf box',
          bounds='N=3 leaves, all finite doubles |x|<=1e100 for every box coordinate (min<=max NOT assumed), all sorted Morton arrays',
          targets=['Collider::Collider', 'Collider::UpdateBoxes', 'collider_internal::BuildInternalBoxes', 'collider_internal::FindCollision', 'Box::Union', 'Box::DoesOverlap(Box)', 'for_each_n(Seq)', 'AtomicAdd']),
+  ] + [
+    dict(name='refit_shape%d' % k, harness='c14_collider.cpp', entry='h_refit', defs={'VF_N': 4, 'VF_SHAPE': k},
+         unwind={'default': 9}, backends=['minisat'], timeout=900, tiers=['quick', 'thorough'] if k in (0, 1, 4) else ['thorough'],
+         claim='UpdateBoxes on an existing 4-leaf tree (Morton array #%d fixed, so the tree shape is constant; old boxes, new boxes - each leaf kept or replaced - and the query symbolic): every internal box is exactly the union of its children, leaf boxes are the new boxes, and a Box query reports exactly the overlapping leaves' % k,
+         bounds='4 leaves, one concrete Morton array per query (distinct / all equal / two pairs / far apart / mixed), all finite doubles', targets=['Collider::UpdateBoxes', 'collider_internal::BuildInternalBoxes', 'AtomicAdd<int>', 'collider_internal::FindCollision'])
+    for k in range(5)
+  ] + [
+    dict(name='e2e_update_n4', harness='c14_collider.cpp', entry='h_e2e_update', defs={'VF_N': 4},
+         unwind={'default': 9}, backends=['minisat', 'kissat'], timeout=1500, mem_gb=20,
+         tiers=['experimental'],
+         claim='Collider built on one box set, then UpdateBoxes(new boxes), then a Box query: reports exactly the leaves whose NEW box overlaps (refit leaves no stale ancestor box)',
+         bounds='N=4 leaves, all finite doubles for both box sets and the query, all sorted Morton arrays', targets=['Collider::UpdateBoxes', 'collider_internal::BuildInternalBoxes', 'collider_internal::FindCollision']),
     dict(name='e2e_point_n3', harness='c14_collider.cpp', entry='h_e2e_point', defs={'VF_N': 3},
          unwind={'default': 8}, backends=['minisat','kissat'], timeout=900, tiers=['quick', 'thorough'],
          claim='same with a vec3 query: recorded iff the point projects into the XY extent of the leaf box (closed)',
@@ -64,36 +76,58 @@ PROPERTIES['C13'] = {
     _c13('reduce_plus', 'h_reduce_plus', 'reduce(Par, plus, init = identity 0) == sequential fold for every reduction tree', lens=[1, 2, 3]),
     _c13('reduce_plus_len4', 'h_reduce_plus', 'reduce(Par, plus) [length = 4]', tiers=['thorough'], defs_extra={'VF_LEN': 4}, timeout=1800),
     _c13('reduce_max', 'h_reduce_max', 'reduce(Par, max, init = identity) == sequential fold for every reduction tree', lens=[3]),
-    _c13('transform_reduce', 'h_transform_reduce', 'transform_reduce(Par, plus, 3*x, init = 0) == sequential fold', lens=[3]),
+    _c13('transform_reduce', 'h_transform_reduce', 'transform_reduce(Par, plus, 3*x, init = 0) == sequential fold', lens=[3], tiers=['experimental']),
     _c13('count_all', 'h_count_all', 'count_if, all_of (Par) == sequential definition for every reduction tree', tiers=['thorough']),
-    _c13('merge_rec', 'h_merge_rec', 'details::mergeRec (parallel stable merge used by stable_sort(Par, comp)): output is the STABLE merge of two sorted runs (left run first on ties) for every split and every parallel_invoke order', n=3, lens=[1, 2], unwind={'default': 6}, recursion={'mergeRec|mergeSortRec': 3}, timeout=900),
-    _c13('merge_rec_len3', 'h_merge_rec', 'details::mergeRec stable parallel merge [length = 3]', n=3, unwind={'default': 6}, recursion={'mergeRec|mergeSortRec': 3}, timeout=1800, mem_gb=28, tiers=['thorough'], defs_extra={'VF_LEN': 3}),
-    _c13('radix_sort', 'h_radix_sort', 'stable_sort(Par) on uint32 = radix_sort/SortedRange/LSB_radix_sort/mergeRec: sorted permutation for every reduce tree and split timing', n=3, lens=[2, 3], unwind={'default': 5, 'Hist|histogram|prefixSum': 257}, recursion={'mergeRec|mergeSortRec': 4}, tiers=['experimental']),
+    _c13('merge_rec', 'h_merge_rec', 'details::mergeRec (parallel stable merge used by stable_sort(Par, comp)): output is the STABLE merge of two sorted runs (left run first on ties) for every split and every parallel_invoke order', n=3, lens=[2, 3], unwind={'default': 6}, recursion={'mergeRec|mergeSortRec|parallel_invoke': 2}, timeout=1200, mem_gb=16),
+    _c13('sorted_range_join', 'h_sorted_range_join', 'details::SortedRange::join + swapBuffer (reduction step of the radix-sort path behind stable_sort(Par) on integers): two adjacent sorted runs, each in either buffer (inTmp symbolic, stale data in the other buffer), every split: afterwards the buffer named by inTmp holds the sorted merge', n=4, thr=8, lens=[2, 3, 4], unwind={'default': 6}, recursion={'mergeRec|mergeSortRec|parallel_invoke': 1}, timeout=1200, mem_gb=16),
+    _c13('radix_sort_u8', 'h_radix_sort', 'stable_sort(Par) on integers = radix_sort / SortedRange (split, operator(), join, swapBuffer, buffer parity inTmp) / LSB_radix_sort / Hist: sorted permutation of the input for every reduce tree over <=2 chunks, split timing and execution order (sequential histogram and std::merge inside: hook threshold 8)', n=3, thr=8, lens=[2, 3],
+         unwind={'default': 5, 'Hist|histogram|prefixSum|LSB_radix': 257}, recursion={'mergeRec|mergeSortRec': 2}, defs_extra={'VF_KEY_T': 'unsigned char', 'VF_TBB_MAX_CHUNKS': 2}, timeout=1500, mem_gb=24, tiers=['experimental']),
   ]),
 }
 
 _INGEST_CUTS = ['_ZN8manifold8Manifold4Impl15CreateHalfedges.*']
 _INGEST_REDIR = {'_ZN8manifold8Manifold4Impl10ReserveIDsEj': 'vf_stub_ReserveIDs'}
+# length configurations of (vertProperties, triVerts, mergeFrom, mergeTo, runIndex, runOriginalID, runTransform, runFlags, faceID, halfedgeTangent)
+_C09_CFG = [  # name, lengths, tier, numProp (None = arbitrary)
+  ('defaults',        (12, 12, 0, 0, 0, 0, 0, 0, 0, 0),  'q', 3),
+  ('merge1',          (12, 12, 1, 1, 0, 0, 0, 0, 0, 0),  't', 3),
+  ('merge2',          (12, 12, 2, 2, 0, 0, 0, 0, 0, 0),  'q', 3),
+  ('merge_mismatch',  (12, 12, 2, 1, 0, 0, 0, 0, 0, 0),  't', 3),
+  ('runs_3_2_full',   (12, 12, 0, 0, 3, 2, 24, 2, 4, 0), 'q', 3),
+  ('runs_2_2',        (12, 12, 0, 0, 2, 2, 0, 0, 0, 0),  't', 3),
+  ('runs_2_1',        (12, 12, 0, 0, 2, 1, 12, 1, 0, 0), 't', 3),
+  ('runs_1_1',        (12, 12, 0, 0, 1, 1, 0, 0, 0, 0),  't', 3),
+  ('runs_0_2',        (12, 12, 0, 0, 0, 2, 0, 0, 0, 0),  'q', 3),
+  ('runs_3_1',        (12, 12, 0, 0, 3, 1, 0, 0, 0, 0),  't', 3),
+  ('runs_2_0',        (12, 12, 0, 0, 2, 0, 0, 0, 0, 0),  'q', 3),
+  ('runs_3_0',        (12, 12, 0, 0, 3, 0, 0, 0, 0, 0),  't', 3),
+  ('runs_1_0',        (12, 12, 0, 0, 1, 0, 0, 0, 0, 0),  't', 3),
+  ('faceid_4',        (12, 12, 0, 0, 0, 0, 0, 0, 4, 0),  't', 3),
+  ('faceid_3',        (12, 12, 0, 0, 0, 0, 0, 0, 3, 0),  't', 3),
+  ('tangent_48',      (12, 12, 0, 0, 0, 0, 0, 0, 0, 48), 'q', 3),
+  ('tangent_4',       (12, 12, 0, 0, 0, 0, 0, 0, 0, 4),  't', 3),
+  ('flags_1_runs_2',  (12, 12, 0, 0, 3, 2, 0, 1, 0, 0),  't', 3),
+  ('props4',          (16, 12, 1, 1, 0, 0, 0, 0, 0, 0),  't', 4),
+  ('anyprop_small',   (4, 3, 1, 1, 1, 1, 12, 1, 1, 4),   'q', None),
+  ('anyprop_empty',   (0, 0, 0, 0, 0, 0, 0, 0, 0, 0),    't', None),
+  ('anyprop_verts',   (4, 0, 0, 0, 0, 0, 0, 0, 0, 0),    't', None),
+  ('anyprop_tris',    (0, 12, 0, 0, 2, 1, 0, 0, 4, 48),  't', None),
+]
+def _c09(name, lens, tier, numprop=3, entry='h_ingest64', what='MeshGL64'):
+    return dict(name=name, harness='c09_ingest.cpp', entry=entry, defs=dict({'VF_LENS': ','.join(map(str, lens))}, **({'VF_NUMPROP': numprop} if numprop is not None else {})),
+                cuts=_INGEST_CUTS, redirect=_INGEST_REDIR, models=['rbtree.h'],
+                unwind={'auto': True, 'start': 2, 'max': 64, 'h_ingest|sym': 49}, recursion={'default': 2}, backends=['minisat'], timeout=1200, object_bits=12, mem_gb=16,
+                cdefs=['VF_ALLOC_CLASSES=VF_C(4) VF_C(8) VF_C(12) VF_C(16) VF_C(24) VF_C(32) VF_C(48) VF_C(64) VF_C(96) VF_C(192) VF_C(384)'],
+                tiers=['quick', 'thorough'] if tier == 'q' else ['thorough'],
+                claim='Impl::Impl(%s) up to the call of CreateHalfedges, numProp %s, vector lengths %s (vertProperties, triVerts, mergeFromVert, mergeToVert, runIndex, runOriginalID, runTransform, runFlags, faceID, halfedgeTangent): memory safe, no div-by-zero / overflow / throw for every tolerance and every content; early returns are empty with an error' % (what, ('= %s' % numprop) if numprop is not None else 'ARBITRARY', lens),
+                bounds='lengths fixed per query as listed; numProp, tolerance and ALL contents (indices: any 64/32-bit value, floats: any bit pattern) arbitrary',
+                targets=['Manifold::Impl::Impl<%s>(MeshGLP)' % ('double,uint64_t' if what == 'MeshGL64' else 'float,uint32_t'), 'MeshGLP::NumVert/NumTri/Backside/HasNormals', 'Manifold::Impl::MakeEmpty', 'Vec<T>', 'std::map insert (modelled tree)'])
 PROPERTIES['C09'] = {
-  'level_text': 'Bounded model checking of the real MeshGL ingest ladder on arbitrary input structures: for every MeshGL64/MeshGL within the size bounds and with arbitrary contents, the constructor performs no out-of-bounds access, division by zero, signed overflow, out-of-range float->int conversion or throw before handing over to halfedge construction, and early returns are empty with an error status. Right level: malformed-input defects are single unvalidated index/length relations, which the solver finds by construction.',
-  'level_note': 'Two slices: "gates" (every length symbolic but <=4, numProp arbitrary) and "deep" (4 vertices x 3 properties and 4 triangles as constant lengths so that the run table / merge map / tangent / triangle loops are reached; every other vector of symbolic length <=3..12; all contents arbitrary). Everything from CreateHalfedges on is cut (the success path ends there); ReserveIDs returns an arbitrary id; std::map via models/rbtree.h (unbalanced BST). Allocation failure is out of scope. Numeric argument guards: see C17 circular_segments.',
-  'obligations': [
-    dict(name='ingest64_gates', harness='c09_ingest.cpp', entry='h_ingest64', cuts=_INGEST_CUTS, redirect=_INGEST_REDIR, models=['rbtree.h'],
-         unwind={'auto': True, 'start': 2, 'max': 16, 'h_ingest': 13}, recursion={'default': 2}, backends=['minisat'], timeout=900, object_bits=12,
-         claim='Impl::Impl(MeshGL64), early gates: memory safe, no div-by-zero / overflow / throw for every field content and every numProp; error returns are empty',
-         bounds='vertProperties<=4, triVerts<=3, every other vector<=1 entry, numProp / tolerance / all contents arbitrary',
-         targets=['Manifold::Impl::Impl<double,uint64_t>(MeshGLP)', 'MeshGLP::NumVert/NumTri', 'Manifold::Impl::MakeEmpty']),
-    dict(name='ingest64_deep', harness='c09_ingest.cpp', entry='h_ingest64', defs={'VF_DEEP': 1, 'VF_L': 3}, cuts=_INGEST_CUTS, redirect=_INGEST_REDIR, models=['rbtree.h'],
-         unwind={'auto': True, 'start': 2, 'max': 16, 'h_ingest': 13}, recursion={'default': 2}, backends=['minisat'], timeout=1500, object_bits=12, mem_gb=20,
-         cdefs=['VF_ALLOC_CLASSES=VF_C(4) VF_C(8) VF_C(12) VF_C(16) VF_C(24) VF_C(32) VF_C(48) VF_C(64) VF_C(96)'],
-         claim='Impl::Impl(MeshGL64), deep slice up to the call of CreateHalfedges: merge map, run table -> triRef, faceID, run transforms/flags, tangents, triangle index check: memory safe, no UB, error returns are empty',
-         bounds='numProp=3, 12 vertProperties, 12 triVerts (constant lengths); mergeFrom/To, runIndex<=3, runOriginalID, runFlags<=2, runTransform<=12, faceID<=4, halfedgeTangent<=4; all contents arbitrary',
-         targets=['Manifold::Impl::Impl<double,uint64_t>(MeshGLP)', 'MeshGLP::Backside/HasNormals', 'Vec<T>', 'std::map insert (modelled tree)']),
-    dict(name='ingest32_gates', harness='c09_ingest.cpp', entry='h_ingest32', cuts=_INGEST_CUTS, redirect=_INGEST_REDIR, models=['rbtree.h'],
-         unwind={'auto': True, 'start': 2, 'max': 16, 'h_ingest': 13}, recursion={'default': 2}, backends=['minisat'], timeout=900, object_bits=12,
-         claim='same early gates for the 32-bit MeshGL instantiation', bounds='as ingest64_gates with float / uint32_t fields',
-         targets=['Manifold::Impl::Impl<float,uint32_t>(MeshGLP)']),
-  ],
+  'level_text': 'Bounded model checking of the real MeshGL ingest ladder on arbitrary input structures: for each of a table of vector-length configurations (valid and invalid shapes around every length relation the ladder checks) and with numProp, tolerance and ALL contents arbitrary, the constructor performs no out-of-bounds access, division by zero, signed overflow, out-of-range float->int conversion or throw before handing over to halfedge construction, and early returns are empty with an error status. Right level: malformed-input defects are single unvalidated index/length relations, which the solver finds by construction (two were found and repaired).',
+  'level_note': 'One query per length configuration (symbolic-length heap blocks make CBMC fall back to array theory and run out of memory); 4 vertices x 3 properties, 4 triangles. Everything from CreateHalfedges on is cut (the success path ends there); ReserveIDs returns an arbitrary id; std::map via models/rbtree.h (unbalanced BST). Allocation failure is out of scope. Numeric argument guards: see C17 circular_segments. OBJ text, polygon/point-set inputs and status propagation through manifold.cpp are outside.',
+  'obligations': [_c09('ingest64_' + n, l, t, np) for n, l, t, np in _C09_CFG] + [
+      _c09('ingest32_runs_3_2_full', (12, 12, 0, 0, 3, 2, 24, 2, 4, 0), 't', 3, entry='h_ingest32', what='MeshGL'),
+      _c09('ingest32_anyprop_small', (4, 3, 1, 1, 1, 1, 12, 1, 1, 4), 'q', None, entry='h_ingest32', what='MeshGL')],
 }
 
 PROPERTIES['C11'] = {
@@ -151,7 +185,7 @@ PROPERTIES['C17'] = {
          bounds='all 64-bit doubles (incl. NaN, inf, denormals) and all ints', targets=['manifold.cpp Quality::SetMinCircularAngle/SetMinCircularEdgeLength/SetCircularSegments/GetCircularSegments']),
     dict(name='circular_segments_default', harness='c17_numeric.cpp', entry='h_circular_segments_default', models=['libm.h'], backends=['minisat'], timeout=600, unwind={'default': 3},
          claim='with default Quality: 4 <= n <= 36, multiple of 4, even in radius, monotone non-decreasing in |radius|', bounds='all doubles', targets=['Quality::GetCircularSegments']),
-    dict(name='sind_exact', harness='c17_numeric.cpp', entry='h_sind_exact', models=['libm.h'], backends=['minisat', 'kissat'], timeout=900, unwind={'default': 3}, recursion={'sind': 2}, object_bits=12, forbid=['_ZN8manifold4math7RemPio2.*'],
+    dict(name='sind_exact', harness='c17_numeric.cpp', entry='h_sind_exact', models=['libm.h'], backends=['minisat', 'kissat'], timeout=900, tiers=['experimental'], unwind={'default': 3}, recursion={'sind': 2}, object_bits=12, forbid=['_ZN8manifold4math7RemPio2.*'],
          claim='sind(90k) and cosd(90k) are exactly 0, +1 or -1 with the right sign', bounds='|k| <= 10^6; remquo by contract; the large-argument reduction RemPio2 is asserted unreachable', targets=['common.h sind, cosd', 'math.h sin, cos (small-argument paths)']),
     dict(name='sind_nonfinite', harness='c17_numeric.cpp', entry='h_sind_nonfinite', models=['libm.h'], backends=['minisat'], timeout=600, unwind={'default': 3}, recursion={'sind': 2}, object_bits=12, forbid=['_ZN8manifold4math7RemPio2.*'],
          claim='sind/cosd of NaN or +-inf is NaN', bounds='all non-finite doubles', targets=['common.h sind, cosd']),
@@ -169,6 +203,11 @@ PROPERTIES['C15'] = {
          claim='for_each with ctx == nullptr always completes', bounds='n <= 8', targets=['parallel.h for_each']),
     dict(name='progress_range', harness='c15_cancel.cpp', entry='h_progress', exceptions=True, backends=['minisat', 'kissat'], timeout=600, unwind={'default': 3}, tiers=['experimental'],
          claim='Progress() in [0,1] whenever 0 <= donePhases <= totalPhases; 1 when total == 0 or done == total', bounds='all int counter values', targets=['execution_impl.cpp ExecutionContext::Progress']),
+    dict(name='boolean_cancel_any_point', harness='c15_boolean.cpp', entry='h_boolean_cancel', cancel_oracle=True, models=['rbtree.h', 'stdlib.h', 'hash_pmr.h'],
+         redirect={'_ZN8manifold14ManifoldParamsEv': 'vf_stub_ManifoldParams'}, unwind={'default': 70}, recursion={'default': 12}, object_bits=13,
+         backends=['minisat'], timeout=3000, mem_gb=30, tiers=['experimental'],
+         claim='Boolean3::Result(Add) of two concrete disjoint tetrahedra under EVERY cancellation schedule (sticky oracle at every atomic load of the cancel flag, i.e. Cancel() taking effect at the k-th check for every k): the result is either Cancelled and empty, or - only if cancellation never became visible - the complete 8-triangle union with donePhases == kPhasesPerBoolean',
+         bounds='one concrete operand pair (two tetrahedra, disjoint boxes); symbolic: the cancellation point only', targets=['boolean_result.cpp Boolean3::Result (all 11 phase() sites, PhaseBalance)', 'sort.cpp SortGeometry(ctx)', 'parallel.h for_each(ctx)', 'face_op.cpp Face2Tri', 'edge_op.cpp SimplifyTopology']),
     dict(name='reset_order', harness='c15_cancel.cpp', entry='h_reset_order', cdefs=['VF_HAVE_ENV'], extra_roots=['vf_env'], backends=['minisat', 'kissat'], timeout=600, unwind={'default': 3},
          claim='ResetForStaticFactory: an observer computing Progress() before/after each of the four atomic stores never sees a value > 1', bounds='all int counter values, observer at every atomic access', targets=['execution_impl.cpp ResetForStaticFactory']),
   ],
@@ -223,6 +262,8 @@ PROPERTIES['C20'] = {
          claim='manifold_box_translate / manifold_box_mul equal Box::operator+ / operator* (scalars arrive in x,y,z order); placement at mem', bounds='integer-valued doubles in [-8,8] (exact arithmetic)', targets=['bindings/c/box.cpp']),
     dict(name='rect_arith', harness='c20_cbind.cpp', entry='h_rect_arith', real='f16', backends=['minisat', 'kissat'], timeout=600, unwind={'default': 5},
          claim='manifold_rect_translate / manifold_rect_mul equal Rect::operator+ / operator*', bounds='integer-valued doubles in [-8,8]', targets=['bindings/c/rect.cpp']),
+    dict(name='rect_transform', harness='c20_cbind.cpp', entry='h_rect_transform', real='f16', backends=['minisat', 'kissat'], timeout=600, unwind={'default': 7},
+         claim='manifold_rect_transform passes its 6 scalars to mat2x3 column by column (equals Rect::Transform)', bounds='integer-valued doubles in [-8,8] (exact arithmetic, so any argument permutation is visible)', targets=['bindings/c/rect.cpp manifold_rect_transform']),
     dict(name='enums_conv', harness='c20_cbind.cpp', entry='h_enums', backends=['minisat'], timeout=300, unwind={'default': 3},
          claim='to_c(Manifold::Error) maps each of the 15 enumerators to the C enumerator of the same name, injectively; OpType/JoinType tables; vec2/3/4 conversions keep component order', bounds='all enumerators, all finite doubles', targets=['bindings/c/conv.cpp']),
   ],
@@ -290,5 +331,37 @@ PROPERTIES['C01'] = {
     dict(name='gather_faces', harness='c01_sort.cpp', entry='h_gather_faces', defs={'VF_T': 4, 'VF_V': 4}, backends=['minisat'], timeout=900, unwind={'default': 13}, recursion={'default': 2},
          cdefs=['VF_ALLOC_CLASSES=VF_C(16) VF_C(48) VF_C(64) VF_C(96)'],
          claim='Impl::GatherFaces(faceNew2Old) for every face permutation: invariant preserved, starts copied, pairs mapped through the permutation, triRef permuted', bounds='4 triangles, 4 vertices, all 24 permutations', targets=['sort.cpp Impl::GatherFaces, ReindexFace, Permute', 'parallel.h scatter/gather/for_each_n(Seq)']),
+  ],
+}
+
+_C08_OBL = dict(name='export_t3', harness='c08_export.cpp', entry='h_export', defs={'VF_T': 3, 'VF_V': 3, 'VF_M': 3}, models=['rbtree.h', 'stdlib.h'],
+     unwind={'auto': True, 'start': 2, 'max': 16, 'h_export': 13}, recursion={'default': 3}, backends=['minisat'], timeout=1500, object_bits=12, mem_gb=20,
+     cdefs=['VF_ALLOC_CLASSES=VF_C(1) VF_C(2) VF_C(4) VF_C(8) VF_C(12) VF_C(16) VF_C(24) VF_C(32) VF_C(36) VF_C(48) VF_C(64) VF_C(72) VF_C(96) VF_C(128) VF_C(192) VF_C(256) VF_C(288) VF_C(384) VF_C(512)'],
+     claim='GetMeshGLImpl<double,uint64_t> on a derived (non-original) Impl with 3 triangles over 3 mesh instances: run table well formed (numRun+1 non-decreasing indices from 0 to 3*numTri, multiples of 3, runs with triangles sorted by originalID), every output triangle is exactly one source triangle and carries that triangle\'s vertex indices, its three halfedge tangents, its face ID, and sits in a run whose originalID / transform / backSide / hasNormals are those of its own mesh instance; positions exported verbatim',
+     bounds='3 triangles, 3 vertices, 3 mesh instances with arbitrary originalIDs in 0..2, arbitrary finite transforms/tangents/positions, numProp = 0',
+     targets=['impl.h GetMeshGLImpl', 'std::map find/erase/iteration (modelled tree)', 'std::stable_sort (real libstdc++ code)'])
+PROPERTIES['C08'] = {
+  'level_text': 'Bounded model checking of the real exporter GetMeshGLImpl on a small fully symbolic Impl: whatever the triangle-to-instance assignment, every output triangle is one source triangle that keeps ALL its per-triangle data (vertex indices, the three halfedge tangents, face ID) and sits in a run carrying its own instance\'s originalID, transform and flags. This is the mechanism behind "export and re-import is lossless" on the export side; it stands guard over the tangent-order defect repaired by commit 6a57741f.',
+  'level_note': 'Export side only, numProp = 0, 3 triangles / 3 instances. The ingest side is covered up to CreateHalfedges by C09; DedupePropVerts/SortGeometry after it, property-vertex duplication with merge vectors, the 32-bit path, Merge() and the OBJ reader/writer are outside this check.',
+  'obligations': [_C08_OBL, dict(_C08_OBL, name='export_t2_m2', defs={'VF_T': 2, 'VF_V': 3, 'VF_M': 2},
+                                   bounds='2 triangles, 3 vertices, 2 mesh instances', claim='same at 2 triangles / 2 instances (cheaper second instantiation)')],
+}
+PROPERTIES['C07'] = {
+  'level_text': 'Bounded model checking of the run table the exporter builds (the observable form of provenance): runs are contiguous, cover all triangles, are sorted by original ID, and each triangle\'s run names its own source instance (originalID, transform, back-side and normals flags) and its own face ID, for every assignment of triangles to instances.',
+  'level_note': 'Run-table clause only (GetMeshGLImpl, numProp = 0, 3 triangles / 3 instances). MapTriRef/UpdateReference in the Boolean, CreateProperties/GetBarycentric interpolation, Transform composition and the geometric clause "triangle lies within tolerance of its source face" are outside this check.',
+  'obligations': [dict(_C08_OBL, name='runtable_t3'), dict(_C08_OBL, name='runtable_t2_m2', defs={'VF_T': 2, 'VF_V': 3, 'VF_M': 2}, bounds='2 triangles, 3 vertices, 2 mesh instances', claim='same at 2 triangles / 2 instances')],
+}
+
+_C18_REDIR = {'_ZN8manifold8Manifold4Impl9MakeEmptyENS0_5ErrorE': 'vf_stub_MakeEmpty'}
+PROPERTIES['C18'] = {
+  'level_text': 'Bounded model checking of the query kernels against brute-force definitions written in the harness: CalculateBBox is the tight box of the non-NaN vertices for every vertex set (NaN-tombstoned vertices ignored, empty when none is finite), IsFinite is true exactly when every coordinate is finite for every bit pattern, IsIndexInBounds is the conjunction of per-index range tests for every int, the counting accessors follow from the array sizes.',
+  'level_note': 'Query kernels only. Volume/Area sums, MinGap / triangle distance, RayCast / WindingNumber (Kernel12/Kernel02 with zero perturbation), Slice, Project, Decompose and Genus are outside this check. 3 vertices / 2 triangles; reduce runs its sequential branch here (the parallel reduction trees are covered under C13 for operators with an identity).',
+  'obligations': [
+    dict(name='bbox_tight', harness='c18_measure.cpp', entry='h_bbox', redirect=_C18_REDIR, backends=['minisat'], timeout=600, unwind={'default': 5}, recursion={'default': 2},
+         claim='Impl::CalculateBBox: min/max of the non-NaN vertices exactly; no finite vertex => MakeEmpty(NoError) is requested', bounds='3 vertices, each either NaN-tombstoned or arbitrary finite doubles |x|<=1e300', targets=['properties.cpp Impl::CalculateBBox', 'parallel.h reduce (Seq)', 'common.h Box::IsFinite']),
+    dict(name='isfinite', harness='c18_measure.cpp', entry='h_isfinite', redirect=_C18_REDIR, backends=['minisat'], timeout=600, unwind={'default': 5}, recursion={'default': 2},
+         claim='Impl::IsFinite() <=> every coordinate of every vertex is finite', bounds='3 vertices, all 64-bit patterns', targets=['properties.cpp Impl::IsFinite']),
+    dict(name='index_in_bounds_counts', harness='c18_measure.cpp', entry='h_index_in_bounds', redirect=_C18_REDIR, backends=['minisat'], timeout=600, unwind={'default': 9}, recursion={'default': 2},
+         claim='Impl::IsIndexInBounds(triVerts) <=> every index in [0, NumVert); NumTri/NumEdge/NumVert/NumPropVert/IsEmpty follow the array sizes', bounds='2 triangles, all int indices', targets=['properties.cpp Impl::IsIndexInBounds', 'impl.h counting accessors']),
   ],
 }
